@@ -154,7 +154,10 @@ func Exec(h []Op, m Mode) *Result {
 				return res
 			}
 		}
+		implOK := err == nil
+		ref.ImplOK = &implOK
 		ok := ref.Step(o, now)
+		ref.ImplOK = nil
 		if err != nil {
 			res.ErrPat += "E"
 		} else {
